@@ -4,7 +4,7 @@ import os, sys
 sys.path.insert(0, os.path.dirname(os.path.dirname(os.path.abspath(__file__))))
 from vlib.pyvc import api
 api.load_sidecars()
-names = [n for n, c in api.REG.items() if not c.trusted and c.wired and (not sys.argv[1:] or any(a in n for a in sys.argv[1:]))]
+names = [n for n, c in api.REG.items() if n == c.name and not c.trusted and c.wired and (not sys.argv[1:] or any(a in n for a in sys.argv[1:]))]
 r = api.write_lock(names)
 bad = [o for o in r["obligations"] if o["status"] != "discharged"]
 print(len(r["obligations"]), "obligations,", len(bad), "not discharged")
